@@ -106,7 +106,16 @@ pub fn msg_header(mtype: u8, timestamped: Option<bool>) -> impl Strategy<Value =
                 seg_count: 0,
                 seg_num: 0,
             };
-            prop_oneof![14 => Just(h), 1 => Just(zero)]
+            // the variable-length size marker (0xFFFF) with boundary values in the two fields that then carry the size
+            let h2 = h.clone();
+            let h3 = h.clone();
+            prop_oneof![
+                28 => Just(h),
+                2 => Just(zero),
+                1 => Just(MsgHeaderSpec { size: 0xFFFF, seg_count: 0, seg_num: 0, ..h2 }),
+                1 => (prop_oneof![Just(0u16), Just(1u16), Just(0xFFFFu16), any::<u16>()], prop_oneof![Just(0u16), Just(1u16), Just(27u16), Just(28u16), Just(29u16), Just(0xFFFFu16), any::<u16>()])
+                    .prop_map(move |(c, n)| MsgHeaderSpec { size: 0xFFFF, seg_count: c, seg_num: n, ..h3.clone() }),
+            ]
         })
 }
 
